@@ -352,12 +352,18 @@ Section Ring.
              ++ simpl. intros u Hu. destruct (BU eq_refl u) as [_ U2]. apply U2. congruence.
              ++ simpl. congruence.
              ++ auto.
-        * destruct (pick_pos t (OpFree k) (r_out s)) as [j|] eqn:Ep; apply some_pair_inv in Hs as [<- _].
+        * destruct (pick_pos t (OpFree k) (r_out s)) as [j|] eqn:Ep; [apply some_pair_inv in Hs as [<- _]|].
           -- apply pick_step with (o := OpFree k); try assumption; rewrite Epc; reflexivity.
-          -- apply neutral_step; try assumption; try (rewrite Epc; reflexivity); try congruence.
-        * destruct (pick_pos t (OpFreeOwn k) (r_out s)) as [j|] eqn:Ep; apply some_pair_inv in Hs as [<- _].
+          -- destruct (op_waits (OpFree k)); apply some_pair_inv in Hs as [<- _].
+             ++ apply neutral_step; try assumption; try (rewrite Epc; reflexivity); try reflexivity; try discriminate; auto.
+
+             ++ apply neutral_step; try assumption; try (rewrite Epc; reflexivity); try congruence.
+        * destruct (pick_pos t (OpFreeOwn k) (r_out s)) as [j|] eqn:Ep; [apply some_pair_inv in Hs as [<- _]|].
           -- apply pick_step with (o := OpFreeOwn k); try assumption; rewrite Epc; reflexivity.
-          -- apply neutral_step; try assumption; try (rewrite Epc; reflexivity); try congruence.
+          -- destruct (op_waits (OpFreeOwn k)); apply some_pair_inv in Hs as [<- _].
+             ++ apply neutral_step; try assumption; try (rewrite Epc; reflexivity); try reflexivity; try discriminate; auto.
+
+             ++ apply neutral_step; try assumption; try (rewrite Epc; reflexivity); try congruence.
     - (* RFin *)
       apply some_pair_inv in Hs as [<- _].
       apply neutral_step; try assumption; try (rewrite Epc; reflexivity); try reflexivity; try discriminate; auto.
@@ -478,3 +484,47 @@ Proof.
   - intros L t Hb. destruct (Nat.eq_dec t a); [assumption|]. destruct (ri_unl _ _ I L t) as [_ U2].
     destruct (U2 n0) as [_ U4]. congruence.
 Qed.
+
+(* ---------------- the all-owned state: alloc does not return until a free has happened ---------------- *)
+
+(* an allocation that loaded a set in_use flag does not return: it moves on to the next block *)
+Lemma ring_alloc_scans_on P s t blk v :
+  (t < r_n s)%nat -> r_pc (r_thr s t) = RAfter blk (S v) ->
+  exists s', rstep P s t 0 = Some (s', LPlain []) /\ r_pc (r_thr s' t) = RLoad (r_cursor s) /\
+             r_out s' = r_out s /\ r_inuse s' = r_inuse s /\ r_dups s' = r_dups s.
+Proof.
+  intros Hlt Epc. unfold rstep. apply Nat.leb_gt in Hlt. rewrite Hlt, Epc. unfold r_body.
+  eexists. split; [reflexivity|]. simpl. rewrite upd_same. repeat split.
+Qed.
+
+(* a block can only be taken (marked and returned) after its flag was loaded as 0, and then it is neither
+   outstanding nor held by anybody else: exclusive ownership in every reachable state, including the one in
+   which every block is owned *)
+Corollary ring_takes_only_free_blocks_all P cap n locked a scripts sched :
+  ring_usage a locked scripts ->
+  let s := ring_run P cap n locked scripts sched in
+  (forall t blk, r_pc (r_thr s t) = RAfter blk 0 -> r_inuse s blk = 0 /\ ~ In blk (map fst (r_out s))) /\
+  (forall t b, held (r_pc (r_thr s t)) = Some b -> r_inuse s b = 1 /\ ~ In b (map fst (r_out s))) /\
+  (forall t u b, held (r_pc (r_thr s t)) = Some b -> held (r_pc (r_thr s u)) = Some b -> t = u).
+Proof.
+  intros Hu s. pose proof (ring_invariants P cap n locked a scripts sched Hu) as I. fold s in I.
+  split; [|split; [apply (ri_held _ _ I)|apply (ri_held1 _ _ I)]].
+  intros t blk Epc. pose proof (ri_after _ _ I t blk Epc) as Z. split; [assumption|].
+  intros K. pose proof (ri_out _ _ I blk K). congruence.
+Qed.
+
+(* non-vacuity: capacity 2, plain alloc.  The consumer (blocking free) waits; the writer takes both blocks
+   and starts a third allocation with every block owned: it keeps scanning (6 steps shown), nothing is handed
+   out; after the consumer has released block 0 the scan finds it and the writer gets block 0. *)
+Definition allowned_scripts (t : nat) : list op :=
+  match t with 0 => [OpAlloc; OpAlloc; OpAlloc] | 1 => [OpFree 100] | _ => [] end.
+Definition allowned_prefix : list (nat * nat) := repeat (1, 0) 3 ++ repeat (0, 0) 15.
+Example ring_all_owned_waits :
+  let P := {| mo_ts_load_free := Acq; mo_ts_cas_alloc := Rlx; mo_ts_store_free := Rel; mo_spin_tas := Acq;
+              mo_spin_clear := Rel; mo_sowr_load_free := Rlx; mo_sowr_store_free := Rlx;
+              mo_ring_load_inuse := Rlx; mo_ring_store_inuse := Rlx |} in
+  let s1 := ring_run P 2 2 false allowned_scripts allowned_prefix in
+  let s2 := ring_run P 2 2 false allowned_scripts (allowned_prefix ++ repeat (1, 0) 3 ++ repeat (0, 0) 2) in
+  (map fst (r_out s1) = [0; 1] /\ in_body (r_pc (r_thr s1 0)) = true /\ r_inuse s1 0 = 1 /\ r_inuse s1 1 = 1 /\ r_dups s1 = 0) /\
+  (map fst (r_out s2) = [1; 0] /\ r_dups s2 = 0).
+Proof. vm_compute. repeat split; reflexivity. Qed.
